@@ -14,6 +14,7 @@ import (
 	"sort"
 	"strconv"
 	"strings"
+	"sync/atomic"
 	"syscall"
 	"time"
 
@@ -143,6 +144,23 @@ func hasClass(vs []Viol, prop, class string) *Viol {
 	return nil
 }
 
+// CurrentCall is set by the engines right before each call into the library (a short
+// description); the per-run watchdog prints it when a run does not finish.
+var CurrentCall atomic.Value
+
+// armWatchdog starts the wall-clock watchdog of one simulated run: a library call that never
+// returns (a lock taken twice, a loop that does not terminate) would otherwise hang the worker
+// until the driver's batch watchdog fires, which is "harness trouble" (exit 2), not a finding.
+// The worker instead says which run and which call hung and exits with status 3; the driver
+// re-executes that run in a fresh process and reports the hang as a violation of the run.
+func armWatchdog(run int, limit time.Duration) *time.Timer {
+	return time.AfterFunc(limit, func() {
+		cc, _ := CurrentCall.Load().(string)
+		fmt.Fprintf(os.Stderr, "\nVERIF-HANG run=%d: the run did not finish within %s; last call into the library: %s\n", run, limit, cc)
+		os.Exit(3)
+	})
+}
+
 // RunOne executes run number `run` of (seed, property) in search mode.
 func RunOne(e Engine, seed uint64, run int, o Opt) (Out, *choice.Src) {
 	c := choice.New(choice.SeedFor(seed, e.Name()+"/"+o.Property+"/"+o.Mode, run))
@@ -170,6 +188,7 @@ func Main(engines map[string]Engine) {
 		progress = flag.String("progress", "", "file that receives the current run index before each run (for crash attribution)")
 		single   = flag.Int("single", -1, "execute only this run index with tracing and print the trace")
 		chfile   = flag.String("choices", "", "with -single: JSON choice log to replay instead of searching")
+		hang     = flag.Duration("hang", 150*time.Second, "wall-clock limit of one simulated run (a run that exceeds it is reported as a hang: exit status 3)")
 		chlog    = flag.String("chlog", "", "with -single: stream every decision to this file as it is taken (one JSON object per line; survives a run that kills the process)")
 	)
 	flag.Parse()
@@ -184,6 +203,7 @@ func Main(engines map[string]Engine) {
 		os.Exit(doReplay(e, *replay))
 	}
 	if *single >= 0 {
+		armWatchdog(*single, *hang)
 		os.Exit(doSingle(e, *seed, *single, o, *chfile, *chlog, *out))
 	}
 
@@ -216,7 +236,9 @@ func Main(engines map[string]Engine) {
 		if pf != nil {
 			pf.WriteAt([]byte(fmt.Sprintf("%-20d\n", run)), 0)
 		}
+		wd := armWatchdog(run, *hang)
 		res, c := RunOne(e, *seed, run, o)
+		wd.Stop()
 		rep.Runs++
 		addMap(rep.Faults, res.Faults)
 		addMap(rep.Probes, res.Probes)
